@@ -493,6 +493,7 @@ def integration_failure_outside_domain(sess, d, free, exc, stats):
     if len(set(d["obs_t"])) < len(d["obs_t"]):
         # a zero-length step between replicated observation times is refused by dopri5 / vode
         stats["replicated_times_refused"] = stats.get("replicated_times_refused", 0) + 1
+        _after_void_call(sess, d, free)
         return True
     try:
         theta, x0 = full_theta(sess, d, list(free))
@@ -502,7 +503,18 @@ def integration_failure_outside_domain(sess, d, free, exc, stats):
         bad = True
     if bad:
         stats["integration_failure_outside_domain"] = stats.get("integration_failure_outside_domain", 0) + 1
+        _after_void_call(sess, d, free)
     return bad
+
+
+def _after_void_call(sess, d, free):
+    """A call that ended in a (void) integration failure had already stored its parameters in the loss object and
+    pushed them into the shared model before the integrator was started: that is the state later calls see."""
+    try:
+        _sync_model_theta(sess, d, list(free))
+        _remember_theta(sess, d, list(free))
+    except Exception:
+        sess.loss_theta.pop(d["id"], None)
 
 
 def loss_call(sess, op, step, out, stats, log):
